@@ -12,6 +12,7 @@ PID = "C20"
 FN = {"tocm": 0, "torm": 1, "rtcr": 2, "rtrc": 3, "ptrcm": 4, "ptrrm": 5, "arrcm": 6, "arrrm": 7, "veccm": 8, "vecrm": 9}
 KIND = {"map": 0, "reshape": 1, "flatten": 2, "squeeze": 3, "raw": 4}
 NEXPR = 10
+LAYOUT_TU, MAPOPS_TU, REAL_TU = 35, 12, 5        # calls per translation unit (each ~10 s of compile time)
 READS_X = {2, 3, 4, 5, 6, 8, 9}          # expressions of the menu that read the destination itself
 
 def prod(d):
@@ -138,7 +139,7 @@ def sym_groups(tier, seed):
                     calls.append(layout_call(sz, fn, "m", rng.choice([(2, 3), (3, 2), (4, 3), (1, 4), (3, 4)])))
                     calls.append(layout_call(sz, fn, "m", rng.choice([(2, 3, 4), (4, 1, 3), (3, 2, 2)])))
                     calls.append(layout_call(sz, fn, "m", (rng.randint(2, 4),)))
-                for ch in symrun.chunk(calls, 70):
+                for ch in symrun.chunk(calls, LAYOUT_TU):
                     groups.append({"key": "%s/sz%d/layout" % (isa, sz), "header": "map_sym.h", "isa": isa, "calls": ch})
                 calls = []
             else:
@@ -149,7 +150,10 @@ def sym_groups(tier, seed):
                 for n in (1, lanes(isa, sz) + 1, 2 * lanes(isa, sz) + 3):     # rank 1 through a map: the copy is a vector loop
                     calls.append(layout_call(sz, rng.choice(["tocm", "torm"]), "m", (n,)))
                 calls.append(ilist_call(sz, rng.choice([s for s in all_shapes(4, 3) if prod(s) <= 40])))
-            # ---- operation sequences through maps and sources (same translation units as the layout sample)
+            if calls:
+                groups.append({"key": "%s/sz%d" % (isa, sz), "header": "map_sym.h", "isa": isa, "calls": calls})
+            calls = []
+            # ---- operation sequences through maps and sources
             ncase = (12 if isa != "scalar" else 6) if quick else 40
             for (kind, mis, sd, md) in map_cases(rng, isa, sz, ncase, 40 if quick else 72):
                 ids = sorted(rng.sample(range(NEXPR), 2) if quick else rng.sample(range(NEXPR), 3))
@@ -157,7 +161,8 @@ def sym_groups(tier, seed):
                 ids = sorted(set(ids))
                 for _ in range(4):
                     calls.append(mapops_call(sz, kind, mis, ids, sd, md, gen_ops(rng, sd, md, rng.randint(1, 6), ids)))
-            groups.append({"key": "%s/sz%d" % (isa, sz), "header": "map_sym.h", "isa": isa, "calls": calls})
+            for ch in symrun.chunk(calls, MAPOPS_TU):      # 4 consecutive calls share one instantiation
+                groups.append({"key": "%s/sz%d" % (isa, sz), "header": "map_sym.h", "isa": isa, "calls": ch})
     return groups
 
 def rnested(dims, k0=1):
@@ -168,29 +173,55 @@ def rnested(dims, k0=1):
         t, c = rnested(dims[1:], k); parts.append(t); k += c
     return "{" + ",".join(parts) + "}", k - k0
 
+# which ranks each element type covers, so that every ISA sees every rank (3 and >= 4 separately) with some type
+RCTOR_RANKS = {"float": (2, 3), "double": (3, 4), "int32_t": (2, 5), "int64_t": (1, 4)}
+RILIST_RANKS = {"float": (1, 3), "double": (2, 4), "int32_t": (3, 4), "int64_t": (1, 2)}
+UNIT_SHAPES = [(1, 3, 1, 4), (3, 1, 1, 4), (3, 4, 1, 1), (1, 1, 3, 4), (1, 3, 4, 1), (3, 1, 4, 1), (1, 5), (5, 1), (2, 1, 3), (1, 2, 3), (2, 3, 1), (1, 1, 6), (2, 3), (4, 1, 1, 1)]
+
+def shape_of_rank(rng, r, quick=True):
+    """never all extents equal, never a palindrome (a missing reversal must show), last two extents distinct and > 1 (a swap of
+    the innermost loops / extents must show)"""
+    if r == 1: return (rng.randint(2, 9),)
+    while True:
+        s = tuple(rng.randint(1, 4) for _ in range(r))
+        if s != s[::-1] and s[-1] != s[-2] and min(s[-2:]) > 1 and 1 < prod(s) <= 96 and (r < 3 or sum(x > 1 for x in s) >= 3): return s
+
 def real_groups(tier, seed):
     rng = random.Random(seed * 733 + 5)
     quick = tier == "quick"
     isas = core.QUICK_ISAS if quick else core.ALL_ISAS
     groups = []
     for isa in isas:
-        for t in ["float", "double", "int32_t", "int64_t"]:
+        for ti, t in enumerate(["float", "double", "int32_t", "int64_t"]):
             V = lanes(isa, 4 if t in ("float", "int32_t") else 8)
             calls = []
             sizes = sorted(set([V - 1 or 1, V, V + 1, 2 * V + 1, 3 * V, rng.randint(1, 3 * V)]))
             for n in (rng.sample(sizes, 2) if quick else sizes):
                 s = rng.choice(factorisations(n))
                 calls.append("run_rmap<%s,%s>(%du);" % (t, ",".join(map(str, s)), seed * 31 + n))
-            shapes = rng.sample([s for s in all_shapes(4, 4) if prod(s) <= 96], 2 if quick else 25)
-            for s in shapes:
-                ds = ",".join(map(str, s))
-                calls.append("run_rctor<%s,%s>(0u);" % (t, ds))
-                calls.append("run_rilist<%s,%s>([]{ return Tensor<%s,%s>%s; });" % (t, ds, t, ds, rnested(list(s))[0]))
+            reps = 1 if quick else 2
+            for _ in range(reps):
+                for r in RCTOR_RANKS[t] if quick else (1, 2, 3, 4, 5):
+                    calls.append("run_rctor<%s,%s>(0u);" % (t, ",".join(map(str, shape_of_rank(rng, r)))))
+                for r in RILIST_RANKS[t] if quick else (1, 2, 3, 4):
+                    sh = shape_of_rank(rng, r); ds = ",".join(map(str, sh))
+                    calls.append("run_rilist<%s,%s>([]{ return Tensor<%s,%s>%s; });" % (t, ds, t, ds, rnested(list(sh))[0]))
             for n in (rng.sample([2, 3, 4, 5, 8], 1) if quick else [2, 3, 4, 5, 7, 8]):
                 calls.append("run_rstaged<%s,%d,false>(%du);" % (t, n, seed * 17 + n))
                 calls.append("run_rstaged<%s,%d,true>(%du);" % (t, n, seed * 19 + n))
-            groups.append({"key": "%s/%s" % (isa, t), "header": "map_real.h", "isa": isa, "opt": "-O2", "calls": calls,
-                           "pre": "static bool g_verbose=false;"})
+            # wider alphabet: views / reductions / scalar assignment / other-shape maps; linear algebra through maps; shapes
+            for k in range(1 if quick else 4):
+                M = rng.choice([2, 3, 4, 5]); N = rng.choice([V - 1 if V > 2 else 3, V + 1, 2 * V + 1, 5, 3])
+                calls.append("run_rwide<%s,%d,%d,%d>(%du);" % (t, (ti + k + seed) % 2, M, max(N, 2), seed * 23 + k))
+            for n in (rng.sample([2, 3, 4, 5, 8], 1) if quick else [2, 3, 4, 5, 8, 9]):
+                calls.append("run_rlin<%s,%d>(%du);" % (t, n, seed * 29 + n))
+                calls.append("run_rconst<%s,%d>(%du);" % (t, n, seed * 41 + n))
+            k0 = (ti * 3 + seed) % len(UNIT_SHAPES)
+            for sh in ([UNIT_SHAPES[(k0 + j * 5) % len(UNIT_SHAPES)] for j in range(3)] if quick else UNIT_SHAPES):
+                calls.append("run_rshape<%s,%s>(%du);" % (t, ",".join(map(str, sh)), seed * 37 + len(sh)))
+            for ch in symrun.chunk(calls, REAL_TU):
+                groups.append({"key": "%s/%s" % (isa, t), "header": "map_wide.h", "isa": isa, "opt": "-O2", "calls": ch,
+                               "pre": "static bool g_verbose=false;"})
     return groups
 
 def nontrivial(inp, mo):
@@ -210,13 +241,16 @@ def run(tier, seed):
         PID, tier, seed, "Fastor.C20.map_is_alias", "FastorModel.Model.MapAlias / FastorModel.Model.Layout", _only(sym_groups), _only(real_groups),
         assumptions=["vector primitives are lane-wise (C08); element-wise expression evaluation is C02's model (imported, with is_aligned = false for maps)",
                      "operations through maps that are modelled: element write, fill, compound assignment with a scalar / a tensor / an expression, plain assignment of an "
-                     "element-wise expression, assignment from the other name, same-type copy assignment, reading into an owning tensor; views, reductions and "
-                     "evaluation-requiring right-hand sides through maps are value-tested on the real types only",
+                     "element-wise expression, assignment from the other name, same-type copy assignment, reading into an owning tensor; views, reductions, scalar "
+                     "assignment, products / transposes / permute / einsum / inverse with a map as argument or destination, compound lazy products, const maps, "
+                     "squeeze / reshape / flatten of maps are value-tested on the real types against a plain-array oracle (harness/map_wide.h), not in the Lean model",
                      "real-type runs use small integer values (exact in float/double, no integer overflow)"],
         rule="layout: every shape of rank 1-4 with extents <= 4 x {tocolumnmajor, torowmajor} + sampled "
              "round trips / constructors / map sources / nested initializer lists / seeded rank 5-6; mapops: seeded (kind, source shape, map shape of equal size, "
-             "operation sequence of length 1-6 alternating between the names) per (ISA, element size); non-trivial = rank >= 2 resp. at least two operations",
-        nontrivial=nontrivial, per_tu=70)
+             "operation sequence of length 1-6 alternating between the names) per (ISA, element size); real types per (ISA, type): misalignment sweep, constructors / converters / "
+             "lists with ranks stratified over the types (every ISA sees ranks 1-5), staged right-hand sides, 16-statement view/reduction program through map and source, "
+             "19 linear-algebra statements, squeeze/reshape/flatten shapes with unit extents in every position; non-trivial = rank >= 2 resp. at least two operations",
+        nontrivial=nontrivial, per_tu=80)
 
 def sym_call_of(inp):
     d = symrun.kv(inp)
